@@ -14,6 +14,7 @@ when the request itself has number 0 (reachable only after 2^32 Sends on one cli
 `C18_seq_wrap`); `C08_own_zero_accepts_event` states what happens there.
 -/
 import LA.Proofs.ClientCmd
+import LA.Proofs.StateFacts
 
 namespace LA.Client
 open LA.Netlink
@@ -307,3 +308,9 @@ theorem C08_own_zero_accepts_event (s : St) (ev : Bytes) (hev : IsEvent ev) (res
   simp [hev.2]
 
 end LA.Client
+
+/-! ### the code keeps nothing between calls that the model does not have -/
+
+/-- Outside `init`, no function of the root package writes a package-level variable, takes the address of one or calls a
+sync/atomic method on one (regenerated list, see LA.Proofs.StateFacts): all state is in the object the model is given. -/
+theorem C08_state_is_in_the_object : LA.StateFacts.ofPkg "" = [] := by decide
